@@ -14,7 +14,13 @@
 (*   ExtractDelegation  extractDelegationInfo (first NS anchors the set)    *)
 (*   ValidReferral      validReferral + progressingReferral + the parent-   *)
 (*                      detection level test of processDelegation           *)
-(*   CheckGlue          checkGlueRR + usableAddr + lookupV4Nss              *)
+(*   CheckGlue          checkGlueRR + usableAddr + lookupV4Nss; the branch  *)
+(*                      taken when the delegation is already cached is      *)
+(*                      resolveWithCachedNameservers                        *)
+(*   ConcurrentCold     another client's cold query below the same cut      *)
+(*                      finishes while this one waits for the parent: the   *)
+(*                      delegation is in the cache when processDelegation   *)
+(*                      looks (history, not input: move field `race`)       *)
 (*   ResolverAnswer     Resolver.answer + clearAdditional                   *)
 (*   ChaseAlias         cache.additionalAnswer                              *)
 (*   FilterCacheable    cache.filterCacheableAnswer                         *)
@@ -48,19 +54,36 @@
 (*     no address for them outside the glue it chose to send).              *)
 (*  D4 DNSSEC is off / the client sets CD: validation never masks a filter. *)
 (*  D5 when several servers are raced the adversarial one wins.             *)
+(*  D6 the full query name goes to every server (qname minimisation off,    *)
+(*     or fallen back, Resolver.minimize returning the request unchanged).  *)
+(*     With minimisation the code walks label by label, `level` is exact at *)
+(*     every referral and the glue bailiwick is never wider than the asked  *)
+(*     zone; the replay runs every script both ways.                        *)
+(*                                                                         *)
+(* `level` is resolveState.level, the resolver's count of the labels of the *)
+(* zone it is asking.  checkGlueRR derives the glue bailiwick from it (the  *)
+(* level-label suffix of the name on the wire), processDelegation's parent  *)
+(* detection compares it with the referral owner.  Deep = TRUE puts Z and   *)
+(* the victim zone TWO labels below test. (attacker.co.test., bank.co.test.;*)
+(* co.test. is an empty non-terminal of test., as co.uk is on uk's servers) *)
+(* so that one referral descends more than one label.                       *)
 (***************************************************************************)
 EXTENDS Naturals, Sequences, FiniteSets, TLC
 
 CONSTANTS MaxMoves,   \* moves per script
           F,          \* filter switches (see MC_Bailiwick)
-          PreSet, KindSet
+          PreSet, KindSet,
+          Deep,       \* BOOLEAN: Z and the victim zone sit two labels below test. (one referral descends two labels)
+          RaceSet     \* values the move field `race` may take (a subset of BOOLEAN)
 
 -----------------------------------------------------------------------------
 (* names are label tuples, root first *)
 IsSub(c, p)    == Len(p) <= Len(c) /\ SubSeq(c, 1, Len(p)) = p
 TestZ  == <<"test">>
-BankZ  == <<"test", "bank">>
-AttZ   == <<"test", "attacker">>
+Mid    == IF Deep THEN <<"co">> ELSE <<>>
+BankZ  == TestZ \o Mid \o <<"bank">>
+AttZ   == TestZ \o Mid \o <<"attacker">>
+ShopZ  == <<"test", "shop">>            \* an unrelated zone whose only nameserver is the victim zone's host, delegated WITHOUT glue
 SubL   == <<"sub1", "sub2">>
 WL     == <<"w1", "w2">>
 SubZ(i)  == AttZ \o <<SubL[i]>>
@@ -74,11 +97,14 @@ NoHost   == BankZ \o <<"nohost">>
 WwwBank  == BankZ \o <<"www">>
 NsBank   == BankZ \o <<"ns">>
 NsAtt    == AttZ \o <<"ns">>
+WwwShop  == ShopZ \o <<"www">>
 NoName   == <<>>
 
-DelegZones == {TestZ, BankZ, AttZ, SubZ(1), SubZ(2), OffPath}
+DelegZones == {TestZ, BankZ, AttZ, SubZ(1), SubZ(2), OffPath, ShopZ}
 Hosts      == {NsBank, NsAtt, SubNs(1), SubNs(2), TrapHost}
-VictimQs   == <<Victim, NoHost, WwwBank, NsBank>>
+\* the shop query goes first: a referral to the victim zone carries the honest glue for its host and would refresh
+\* the glue cache (victim queries are atomic here, D2, and do not model that)
+VictimQs   == <<WwwShop, Victim, NoHost, WwwBank, NsBank>>
 
 (* addresses *)
 Trap       == "a_trap"
@@ -87,7 +113,8 @@ HonestAddr == [z \in {TestZ, BankZ, AttZ, SubZ(1), SubZ(2)} |->
                  CASE z = TestZ -> "a_test" [] z = BankZ -> "a_bank" [] z = AttZ -> "a_att"
                    [] z = SubZ(1) -> "a_sub1" [] OTHER -> "a_sub2"]
 ZoneOfAddr(a) == CHOOSE z \in DOMAIN HonestAddr : HonestAddr[z] = a
-TrueServers(z) == IF z \in DOMAIN HonestAddr THEN {HonestAddr[z]} ELSE {}
+TrueServers(z) == IF z = ShopZ THEN {"a_bank"}       \* shop.test. is hosted on the bank's server
+                  ELSE IF z \in DOMAIN HonestAddr THEN {HonestAddr[z]} ELSE {}
 
 (* records; `by` is a ghost: the zone whose server put the record on the wire *)
 RR(o, t, d, tn, c, by) == [o |-> o, t |-> t, d |-> d, tn |-> tn, c |-> c, by |-> by]
@@ -108,7 +135,9 @@ AnsKinds == {"honest", "ans_foreign", "cname_out", "cname_bare", "auth_foreign",
 \* "out6" is "out" with the glue given as an AAAA record (the resolver checks the two families in separate
 \* branches; the model's address records have no family, so the abstract message is the same)
 GlueKinds == {"in", "out", "out6", "loop", "local"}
-Moves == {m \in [pre : PreSet, kind : KindSet, glue : GlueKinds \cup {"na"}] :
+\* race = TRUE: while the attack query waits for test.'s referral to Z, another client's cold query below Z
+\* completes and caches Z's delegation (ConcurrentCold).  It matters only while Z is not cached yet.
+Moves == {m \in [pre : PreSet, kind : KindSet, glue : GlueKinds \cup {"na"}, race : RaceSet] :
              (m.kind = "ref_ok") = (m.glue # "na")}
 Trigger(i, kind) == IF kind \in RefKinds THEN SubH(i) ELSE W(i)
 
@@ -160,8 +189,14 @@ BankAnswer(n) ==
     [] n = WwwBank -> Msg("OK", <<A(WwwBank, "t_www", "bank")>>, <<>>, <<>>)
     [] n = NsBank  -> Msg("OK", <<A(NsBank, "a_bank", "bank")>>, <<>>, <<>>)
     [] OTHER       -> Msg("NXDOMAIN", <<>>, <<SOA(BankZ, "bank")>>, <<>>)
+ShopAnswer(n) ==
+  IF n = WwwShop THEN Msg("OK", <<A(WwwShop, "t_shop", "bank")>>, <<>>, <<>>)
+  ELSE Msg("NXDOMAIN", <<>>, <<SOA(ShopZ, "bank")>>, <<>>)
+Truth(n) == IF IsSub(n, ShopZ) THEN ShopAnswer(n) ELSE BankAnswer(n)
 HonestReply(z, n) ==
-  CASE z = TestZ /\ IsSub(n, BankZ) -> Msg("OK", <<>>, <<NS(BankZ, NsBank, "test")>>, <<A(NsBank, "a_bank", "test")>>)
+  CASE z = TestZ /\ IsSub(n, ShopZ) -> Msg("OK", <<>>, <<NS(ShopZ, NsBank, "test")>>, <<>>)   \* glue-less
+    [] z = BankZ /\ IsSub(n, ShopZ) -> ShopAnswer(n)
+    [] z = TestZ /\ IsSub(n, BankZ) -> Msg("OK", <<>>, <<NS(BankZ, NsBank, "test")>>, <<A(NsBank, "a_bank", "test")>>)
     [] z = TestZ /\ IsSub(n, AttZ)  -> Msg("OK", <<>>, <<NS(AttZ, NsAtt, "test")>>, <<A(NsAtt, "a_att", "test")>>)
     [] z = BankZ /\ IsSub(n, BankZ) -> BankAnswer(n)
     [] z \in {SubZ(1), SubZ(2)} /\ IsSub(n, z) ->
@@ -173,6 +208,7 @@ HonestReply(z, n) ==
 VARIABLES
   script,    \* moves played so far
   pc, task, zone, srv, tries, tcp, depth, inbox, msg, info, out, hit, tostore,
+  level,     \* resolveState.level: how many labels the resolver believes the asked zone has
   deleg,     \* Resolver.delegations: zone -> server addresses ({} = absent)
   glue,      \* Resolver.glueV4: host -> addresses
   cache,     \* answer cache: set of [qn, rc, rrs]
@@ -181,7 +217,7 @@ VARIABLES
   \* ghosts (never read by the resolver actions)
   dialled, bankLog, acceptedBad, usedGlue, acceptedRefs, usedForeign
 
-vars == <<script, pc, task, zone, srv, tries, tcp, depth, inbox, msg, info, out, hit, tostore, deleg, glue,
+vars == <<script, pc, task, zone, srv, tries, tcp, depth, inbox, msg, info, out, hit, tostore, level, deleg, glue,
           cache, replies, vq, vres, dialled, bankLog, acceptedBad, usedGlue, acceptedRefs, usedForeign>>
 
 NoTask == [qn |-> NoName, sq |-> NoName, kind |-> "none", i |-> 0]
@@ -190,7 +226,7 @@ NoOut  == [rc |-> "NONE", ans |-> <<>>]
 
 Init ==
   /\ script = <<>> /\ pc = "idle" /\ task = NoTask /\ zone = TestZ /\ srv = {} /\ tries = 0 /\ tcp = FALSE /\ depth = 0
-  /\ inbox = <<>> /\ msg = NoMsg /\ info = NoInfo /\ out = NoOut /\ hit = FALSE /\ tostore = <<>>
+  /\ inbox = <<>> /\ msg = NoMsg /\ info = NoInfo /\ out = NoOut /\ hit = FALSE /\ tostore = <<>> /\ level = 1
   /\ deleg = [z \in DelegZones |-> IF z = TestZ THEN {"a_test"} ELSE {}]
   /\ glue = [h \in Hosts |-> {}]
   /\ cache = {} /\ replies = <<>> /\ vq = 1 /\ vres = <<>>
@@ -205,6 +241,7 @@ CacheHit(n) == {e \in cache : e.qn = n}
 Begin(n, kind, i) ==
   /\ task' = [qn |-> n, sq |-> n, kind |-> kind, i |-> i]
   /\ zone' = StartZone(n) /\ srv' = deleg[StartZone(n)] /\ tries' = 0 /\ tcp' = FALSE /\ depth' = 3
+  /\ level' = Len(StartZone(n))          \* searchCache: CompareSuffix(origin, cached zone)
   /\ msg' = NoMsg /\ info' = NoInfo /\ out' = NoOut /\ hit' = FALSE /\ tostore' = <<>> /\ inbox' = <<>>
   /\ pc' = "ask"
 
@@ -248,7 +285,7 @@ AskZone ==
                                               ELSE <<Dgram(FALSE, n, Msg("OK", <<A(n, "spoof", "att")>>, <<>>, <<>>))>>
                                          ELSE IF ~tcp THEN PreDgrams(pre, n) \o <<real>> ELSE <<real>>
                    ELSE inbox' = <<Dgram(TRUE, n, HonestReply(z, n))>>
-  /\ UNCHANGED <<script, task, zone, srv, tries, tcp, depth, msg, info, out, hit, tostore, deleg, glue, cache,
+  /\ UNCHANGED <<script, level, task, zone, srv, tries, tcp, depth, msg, info, out, hit, tostore, deleg, glue, cache,
                  replies, vq, vres, acceptedBad, usedGlue, acceptedRefs, usedForeign>>
 
 (* dnsclient.Conn.Exchange + the retry policy of Resolver.exchange (udp, udp, tcp; a    *)
@@ -272,7 +309,7 @@ AcceptReply ==
                      /\ task' = [task EXCEPT !.sq = d.q]   \* the cache keys on the accepted message's question
                      /\ acceptedBad' = (acceptedBad \/ ~d.idok \/ d.q # task.qn)
   /\ inbox' = <<>>
-  /\ UNCHANGED <<script, zone, srv, depth, info, out, hit, tostore, deleg, glue, cache, replies, vq,
+  /\ UNCHANGED <<script, level, zone, srv, depth, info, out, hit, tostore, deleg, glue, cache, replies, vq,
                  vres, dialled, bankLog, usedGlue, acceptedRefs, usedForeign>>
 
 (* Resolver.resolve *)
@@ -284,7 +321,7 @@ Classify ==
      ELSE IF msg.ans # <<>> THEN pc' = "answer" /\ UNCHANGED out
      ELSE IF msg.auth # <<>> THEN pc' = "authority" /\ UNCHANGED out
      ELSE out' = [rc |-> "OK", ans |-> <<>>] /\ pc' = "filter"
-  /\ UNCHANGED <<script, task, zone, srv, tries, tcp, depth, inbox, msg, info, hit, tostore, deleg, glue, cache,
+  /\ UNCHANGED <<script, level, task, zone, srv, tries, tcp, depth, inbox, msg, info, hit, tostore, deleg, glue, cache,
                  replies, vq, vres, dialled, bankLog, acceptedBad, usedGlue, acceptedRefs, usedForeign>>
 
 (* extractDelegationInfo: the first NS anchors owner and class *)
@@ -301,7 +338,7 @@ ExtractDelegation ==
                             incoherent |-> (same # NSIdx), hasSOA |-> soa, hasNS |-> TRUE]
                 /\ IF soa THEN out' = [rc |-> msg.rc, ans |-> <<>>] /\ pc' = "filter"
                    ELSE pc' = "referral" /\ UNCHANGED out
-  /\ UNCHANGED <<script, task, zone, srv, tries, tcp, depth, inbox, msg, hit, tostore, deleg, glue, cache,
+  /\ UNCHANGED <<script, level, task, zone, srv, tries, tcp, depth, inbox, msg, hit, tostore, deleg, glue, cache,
                  replies, vq, vres, dialled, bankLog, acceptedBad, usedGlue, acceptedRefs, usedForeign>>
 
 (* validReferral / progressingReferral, then processDelegation's level test *)
@@ -311,7 +348,7 @@ ValidReferral ==
   /\ LET ok == /\ (F.Coherent => ~info.incoherent)
                /\ (F.ClassCheck => info.class = "IN")
                /\ (F.Progress => Progressing(info.owner, zone, task.qn))
-               /\ (F.ParentDetect => Len(info.owner) >= Len(zone))
+               /\ (F.ParentDetect => Len(info.owner) >= level)   \* processDelegation: rs.level > nlevel is errParentDetection
      IN IF ok
         THEN /\ pc' = "glue"
              /\ acceptedRefs' = acceptedRefs \cup
@@ -319,25 +356,47 @@ ValidReferral ==
                     below |-> IsSub(info.owner, zone) /\ info.owner # zone,
                     onpath |-> IsSub(task.qn, info.owner)]}
         ELSE pc' = "fail" /\ UNCHANGED acceptedRefs
-  /\ UNCHANGED <<script, task, zone, srv, tries, tcp, depth, inbox, msg, info, out, hit, tostore, deleg, glue,
+  /\ UNCHANGED <<script, level, task, zone, srv, tries, tcp, depth, inbox, msg, info, out, hit, tostore, deleg, glue,
                  cache, replies, vq, vres, dialled, bankLog, acceptedBad, usedGlue, usedForeign>>
 
 (* checkGlueRR + usableAddr; lookupV4Nss for hosts without usable glue *)
+\* checkGlueRR(resp, hosts, rs.level): the bailiwick is the suffix of the name on the wire that has `level` labels
+\* (dns.PrevLabel(qname, level)); it is the asked zone exactly when level counts that zone's labels.  (D6: the
+\* name on the wire is the full query name.)
+Bailiwick == SubSeq(task.qn, 1, level)
 GlueOK(r) == /\ r.t = "A" /\ r.o \in info.hosts
-             /\ (F.GlueBailiwick => IsSub(r.o, zone))
+             /\ (F.GlueBailiwick => IsSub(r.o, Bailiwick))
              /\ (F.GlueRoutable => r.d \notin Unroutable)
 (* lookupNSAddrV4: glue cache, else an internal resolution (D2/D3) *)
 HostAddrs(h) == IF h \in Hosts /\ glue[h] # {} THEN glue[h]
                 ELSE IF h = NsBank /\ Trap \notin deleg[BankZ] /\ Trap \notin deleg[TestZ] THEN {"a_bank"}
                 ELSE {}
+(* The window between searchCache (Begin) and processDelegation's look into the delegation cache: the attack  *)
+(* query of a move with race = TRUE has test.'s referral to Z in hand, Z is not cached -- and another client's *)
+(* cold query for a name below Z (not a trigger: Z's server answers it honestly) gets there first and caches   *)
+(* Z's delegation with test.'s in-bailiwick glue.  Nothing between Begin and CheckGlue reads the delegation     *)
+(* cache, so taking the step at pc = "glue" covers every earlier interleaving; CheckGlue waits for it, which    *)
+(* keeps one script = one behaviour.                                                                           *)
+RacePending == /\ pc = "glue" /\ task.kind = "attack" /\ script[task.i].race
+               /\ zone = TestZ /\ info.owner = AttZ /\ deleg[AttZ] = {}
+ConcurrentCold ==
+  /\ RacePending
+  /\ deleg' = [deleg EXCEPT ![AttZ] = {"a_att"}]
+  /\ glue' = [glue EXCEPT ![NsAtt] = {"a_att"}]
+  /\ dialled' = dialled \cup {"a_test", "a_att"}
+  /\ UNCHANGED <<script, level, pc, task, zone, srv, tries, tcp, depth, inbox, msg, info, out, hit, tostore, cache,
+                 replies, vq, vres, bankLog, acceptedBad, usedGlue, acceptedRefs, usedForeign>>
+
 CheckGlue ==
-  /\ pc = "glue"
+  /\ pc = "glue" /\ ~RacePending
   /\ LET owner == info.owner
          dz == owner \in DelegZones
-     IN IF depth = 0 THEN pc' = "fail" /\ UNCHANGED <<zone, srv, tries, tcp, depth, deleg, glue, usedGlue>>   \* errMaxDepth
+     IN IF depth = 0 THEN pc' = "fail" /\ UNCHANGED <<zone, srv, tries, tcp, depth, deleg, glue, usedGlue, level>>   \* errMaxDepth
         ELSE IF dz /\ deleg[owner] # {}
-        THEN \* resolveWithCachedNameservers
+        THEN \* resolveWithCachedNameservers: the pinned code does rs.level++ here, the fresh path below does
+             \* rs.level = nlevel; the two agree only when the referral descends exactly one label
              /\ zone' = owner /\ srv' = deleg[owner] /\ pc' = "ask" /\ tries' = 0 /\ tcp' = FALSE /\ depth' = depth - 1
+             /\ level' = IF F.CachedLevel THEN Len(owner) ELSE level + 1
              /\ UNCHANGED <<deleg, glue, usedGlue>>
         ELSE LET used == {k \in 1..Len(msg.add) : GlueOK(msg.add[k])}
                  found == {msg.add[k].o : k \in used}
@@ -348,8 +407,9 @@ CheckGlue ==
                                             THEN {msg.add[k].d : k \in {x \in used : msg.add[x].o = h}}
                                             ELSE glue[h]]
                 /\ usedGlue' = usedGlue \cup {[host |-> msg.add[k].o, addr |-> msg.add[k].d, zone |-> zone] : k \in used}
-                /\ IF servers = {} THEN pc' = "fail" /\ UNCHANGED <<zone, srv, tries, tcp, depth, deleg>>
+                /\ IF servers = {} THEN pc' = "fail" /\ UNCHANGED <<zone, srv, tries, tcp, depth, deleg, level>>
                    ELSE /\ deleg' = IF dz THEN [deleg EXCEPT ![owner] = servers] ELSE deleg
+                        /\ level' = Len(owner)                      \* rs.level = nlevel
                         /\ zone' = owner /\ srv' = servers /\ tries' = 0 /\ tcp' = FALSE /\ depth' = depth - 1 /\ pc' = "ask"
   /\ UNCHANGED <<script, task, inbox, msg, info, out, hit, tostore, cache, replies, vq, vres, dialled,
                  bankLog, acceptedBad, acceptedRefs, usedForeign>>
@@ -361,20 +421,36 @@ ResolverAnswer ==
              ans |-> IF F.AnswerOwnerFilter THEN SelectSeq(msg.ans, LAMBDA r : IsSub(r.o, zone)) ELSE msg.ans]
   /\ msg' = IF F.ClearAdditional THEN [msg EXCEPT !.auth = <<>>, !.add = <<>>] ELSE msg
   /\ pc' = "chase"
-  /\ UNCHANGED <<script, task, zone, srv, tries, tcp, depth, inbox, info, hit, tostore, deleg, glue, cache, replies,
+  /\ UNCHANGED <<script, level, task, zone, srv, tries, tcp, depth, inbox, info, hit, tostore, deleg, glue, cache, replies,
                  vq, vres, dialled, bankLog, acceptedBad, usedGlue, acceptedRefs, usedForeign>>
 
 (* D2: an internal query for a name of an honest zone, through cache and delegations *)
-Poisoned(n) == \E z \in Covering(n) : Trap \in deleg[z]
+\* shop.test. is delegated without glue: its servers are whatever lookupNSAddrV4 finds for the NS host -- the glue
+\* cache first (HostAddrs), so an address planted there for ns.bank... is where shop.test.'s queries go
+ShopNs == IF deleg[ShopZ] # {} THEN deleg[ShopZ] ELSE HostAddrs(NsBank)
+Poisoned(n) == \/ \E z \in Covering(n) : Trap \in deleg[z]
+               \/ IsSub(n, ShopZ) /\ Trap \in ShopNs
+Unreach(n)  == IsSub(n, ShopZ) /\ ~Poisoned(n) /\ ShopNs = {}     \* errNoReachableAuth
 SubAns(n)  == IF CacheHit(n) # {} THEN (CHOOSE e \in CacheHit(n) : TRUE).rrs
               ELSE IF Poisoned(n) THEN <<A(n, "poison", "att")>>
-              ELSE BankAnswer(n).ans
+              ELSE IF Unreach(n) THEN <<>>
+              ELSE Truth(n).ans
 SubRc(n)   == IF CacheHit(n) # {} THEN (CHOOSE e \in CacheHit(n) : TRUE).rc
-              ELSE IF Poisoned(n) THEN "OK" ELSE BankAnswer(n).rc
+              ELSE IF Poisoned(n) THEN "OK" ELSE IF Unreach(n) THEN "SERVFAIL" ELSE Truth(n).rc
+\* the glue cache has nothing for the host: lookupNSAddrV4 asks for its address through the pipeline (cache included)
+NsLookup == deleg[ShopZ] = {} /\ glue[NsBank] = {} /\ ShopNs # {} /\ CacheHit(NsBank) = {}
 SubEffects(n) ==   \* what the sub-resolution leaves behind
   IF CacheHit(n) # {} THEN UNCHANGED <<cache, deleg, bankLog, dialled>>
   ELSE /\ cache' = cache \cup {[qn |-> n, rc |-> SubRc(n), rrs |-> SubAns(n)]}
-       /\ IF Poisoned(n) THEN UNCHANGED <<deleg, bankLog>> /\ dialled' = dialled \cup {Trap}
+                  \cup IF IsSub(n, ShopZ) /\ NsLookup
+                       THEN {[qn |-> NsBank, rc |-> BankAnswer(NsBank).rc, rrs |-> BankAnswer(NsBank).ans]} ELSE {}
+       /\ IF IsSub(n, ShopZ)
+          THEN /\ deleg' = [deleg EXCEPT ![ShopZ] = IF @ = {} THEN ShopNs ELSE @,
+                                         ![BankZ] = IF @ = {} /\ NsLookup THEN {"a_bank"} ELSE @]
+               /\ dialled' = dialled \cup ShopNs
+               /\ bankLog' = (IF Poisoned(n) \/ Unreach(n) THEN bankLog ELSE bankLog \cup {n})
+                              \cup IF NsLookup THEN {NsBank} ELSE {}
+          ELSE IF Poisoned(n) THEN UNCHANGED <<deleg, bankLog>> /\ dialled' = dialled \cup {Trap}
           ELSE /\ deleg' = [deleg EXCEPT ![BankZ] = IF @ = {} THEN {"a_bank"} ELSE @]
                /\ bankLog' = bankLog \cup {n}
                /\ dialled' = dialled \cup {"a_bank"}
@@ -392,7 +468,7 @@ ChaseAlias ==
                      /\ SubEffects(target)
                 ELSE UNCHANGED <<out, cache, deleg, bankLog, dialled>>   \* D3
   /\ pc' = IF hit THEN "reply" ELSE "filter"
-  /\ UNCHANGED <<script, task, zone, srv, tries, tcp, depth, inbox, msg, info, hit, tostore, glue, replies, vq, vres,
+  /\ UNCHANGED <<script, level, task, zone, srv, tries, tcp, depth, inbox, msg, info, hit, tostore, glue, replies, vq, vres,
                  acceptedBad, usedGlue, acceptedRefs, usedForeign>>
 
 (* cache.filterCacheableAnswer: keep records owned by the question name *)
@@ -400,7 +476,7 @@ FilterCacheable ==
   /\ pc = "filter"
   /\ tostore' = IF F.CacheOwnerFilter THEN SelectSeq(out.ans, LAMBDA r : r.o = task.sq) ELSE out.ans
   /\ pc' = "store"
-  /\ UNCHANGED <<script, task, zone, srv, tries, tcp, depth, inbox, msg, info, out, hit, deleg, glue, cache, replies,
+  /\ UNCHANGED <<script, level, task, zone, srv, tries, tcp, depth, inbox, msg, info, out, hit, deleg, glue, cache, replies,
                  vq, vres, dialled, bankLog, acceptedBad, usedGlue, acceptedRefs, usedForeign>>
 
 (* Store.setFromResponseWithKey: keyed by the question of the ACCEPTED message *)
@@ -408,20 +484,20 @@ CacheStore ==
   /\ pc = "store"
   /\ cache' = {e \in cache : e.qn # task.sq} \cup {[qn |-> task.sq, rc |-> out.rc, rrs |-> tostore]}
   /\ pc' = "reply"
-  /\ UNCHANGED <<script, task, zone, srv, tries, tcp, depth, inbox, msg, info, out, hit, tostore, deleg, glue, replies,
+  /\ UNCHANGED <<script, level, task, zone, srv, tries, tcp, depth, inbox, msg, info, out, hit, tostore, deleg, glue, replies,
                  vq, vres, dialled, bankLog, acceptedBad, usedGlue, acceptedRefs, usedForeign>>
 
 Fail ==
   /\ pc = "fail"
   /\ out' = [rc |-> "SERVFAIL", ans |-> <<>>] /\ pc' = "reply"
-  /\ UNCHANGED <<script, task, zone, srv, tries, tcp, depth, inbox, msg, info, hit, tostore, deleg, glue, cache, replies,
+  /\ UNCHANGED <<script, level, task, zone, srv, tries, tcp, depth, inbox, msg, info, hit, tostore, deleg, glue, cache, replies,
                  vq, vres, dialled, bankLog, acceptedBad, usedGlue, acceptedRefs, usedForeign>>
 
 ClientReply ==
   /\ pc = "reply"
   /\ replies' = Append(replies, [kind |-> task.kind, i |-> task.i, qn |-> task.qn, rc |-> out.rc, ans |-> out.ans])
   /\ pc' = IF task.kind = "attack" THEN "repeat" ELSE "idle"
-  /\ UNCHANGED <<script, task, zone, srv, tries, tcp, depth, inbox, msg, info, out, hit, tostore, deleg, glue, cache,
+  /\ UNCHANGED <<script, level, task, zone, srv, tries, tcp, depth, inbox, msg, info, out, hit, tostore, deleg, glue, cache,
                  vq, vres, dialled, bankLog, acceptedBad, usedGlue, acceptedRefs, usedForeign>>
 
 (* the same question from another client: Cache.handleCacheHit (ToMsg + additionalAnswer) or a new descent *)
@@ -431,7 +507,7 @@ RepeatQuery ==
      THEN LET e == CHOOSE x \in CacheHit(task.qn) : TRUE
           IN /\ task' = [task EXCEPT !.kind = "repeat"]
              /\ out' = [rc |-> e.rc, ans |-> e.rrs] /\ hit' = TRUE /\ pc' = "chase"
-             /\ UNCHANGED <<zone, srv, tries, tcp, depth, msg, info, tostore, inbox>>
+             /\ UNCHANGED <<zone, srv, tries, tcp, depth, msg, info, tostore, inbox, level>>
      ELSE Begin(task.qn, "repeat", task.i)
   /\ UNCHANGED <<script, deleg, glue, cache, replies, vq, vres, dialled, bankLog, acceptedBad, usedGlue,
                  acceptedRefs, usedForeign>>
@@ -443,14 +519,14 @@ VictimQuery(n) ==
   /\ usedForeign' = (usedForeign \/ \E k \in 1..Len(SubAns(n)) : SubAns(n)[k].by = "att")
   /\ SubEffects(n)
   /\ vq' = vq + 1
-  /\ UNCHANGED <<script, pc, task, zone, srv, tries, tcp, depth, inbox, msg, info, out, hit, tostore, glue, replies,
+  /\ UNCHANGED <<script, level, pc, task, zone, srv, tries, tcp, depth, inbox, msg, info, out, hit, tostore, glue, replies,
                  acceptedBad, usedGlue, acceptedRefs>>
 
 Done == pc = "idle" /\ Len(script) = MaxMoves /\ vq > Len(VictimQs)
 
 Next ==
   \/ \E m \in Moves : ClientQuery(m)
-  \/ AskZone \/ AcceptReply \/ Classify \/ ExtractDelegation \/ ValidReferral \/ CheckGlue
+  \/ AskZone \/ AcceptReply \/ Classify \/ ExtractDelegation \/ ValidReferral \/ ConcurrentCold \/ CheckGlue
   \/ ResolverAnswer \/ ChaseAlias \/ FilterCacheable \/ CacheStore \/ Fail \/ ClientReply \/ RepeatQuery
   \/ \E n \in {VictimQs[k] : k \in 1..Len(VictimQs)} : VictimQuery(n)
   \/ (Done /\ UNCHANGED vars)
@@ -472,8 +548,8 @@ NoForeignRelayed ==                            \* (iii) relayed in the answer se
   \A k \in 1..Len(replies) : \A j \in 1..Len(replies[k].ans) : ~Foreign(replies[k].ans[j])
 NeverDialled == dialled \cap ({Trap} \cup Unroutable) = {}
 VictimTruth ==                                 \* later victim queries: the victim's real data or real non-existence
-  \A k \in 1..Len(vres) : /\ vres[k].rc = BankAnswer(vres[k].qn).rc
-                          /\ vres[k].ans = BankAnswer(vres[k].qn).ans
+  \A k \in 1..Len(vres) : /\ vres[k].rc = Truth(vres[k].qn).rc
+                          /\ vres[k].ans = Truth(vres[k].qn).ans
 Containment == ReplyMatches /\ GlueSound /\ ReferralSound /\ NoForeignCached /\ NoForeignUsed
                /\ NoForeignRelayed /\ NeverDialled /\ VictimTruth
 
@@ -481,7 +557,7 @@ TypeOK ==
   /\ Len(script) <= MaxMoves /\ \A k \in 1..Len(script) : script[k] \in Moves
   /\ pc \in {"idle", "ask", "recv", "classify", "authority", "referral", "glue", "answer", "chase",
              "filter", "store", "fail", "reply", "repeat"}
-  /\ tries \in 0..2 /\ depth \in 0..3 /\ vq \in 1..(Len(VictimQs) + 1)
+  /\ tries \in 0..2 /\ depth \in 0..3 /\ vq \in 1..(Len(VictimQs) + 1) /\ level \in 0..8
   /\ \A z \in DelegZones : deleg[z] \subseteq {"a_test", "a_bank", "a_att", "a_sub1", "a_sub2", Trap} \cup Unroutable
 
 (* what the replay compares with the real pipeline *)
@@ -493,7 +569,7 @@ Broken == {c \in {"ReplyMatches", "GlueSound", "ReferralSound", "NoForeignCached
                [] c = "NoForeignUsed" -> ~NoForeignUsed [] c = "NoForeignRelayed" -> ~NoForeignRelayed
                [] c = "VictimTruth" -> ~VictimTruth
                [] OTHER -> ~NeverDialled}
-Outcome == [script |-> script,
+Outcome == [script |-> script, deep |-> Deep,
             replies |-> [k \in 1..Len(replies) |-> [kind |-> replies[k].kind, i |-> replies[k].i,
                                                     rc |-> replies[k].rc, ans |-> Brief(replies[k].ans)]],
             victims |-> [k \in 1..Len(vres) |-> [qn |-> vres[k].qn, rc |-> vres[k].rc, ans |-> Brief(vres[k].ans)]],
